@@ -484,8 +484,12 @@ pcgstrf_WorkInit(int_t n, int_t panel_size, int_t **iworkptr, complex **dworkptr
 #pragma omp critical ( STACK_LOCK )
 #endif
               {
-	        stack.top2 -= extra;
-	        stack.used += extra;
+	        if ( StackFull(extra) ) { /* no room for the alignment shift */
+		    *dworkptr = NULL;
+		} else {
+		    stack.top2 -= extra;
+		    stack.used += extra;
+		}
 	      }
 #if ( MACH==PTHREAD ) /* Use pthread ... */
         pthread_mutex_unlock( &stack.lock );
@@ -685,8 +689,12 @@ void
 #pragma omp critical ( STACK_LOCK )
 #endif
               {
-                stack.top1 += extra;
-                stack.used += extra;
+                if ( StackFull(extra) ) { /* no room for the alignment shift */
+                    new_mem = NULL;
+                } else {
+                    stack.top1 += extra;
+                    stack.used += extra;
+                }
               }
 #if ( MACH==PTHREAD ) /* Use pthread ... */
       pthread_mutex_unlock( &stack.lock );
